@@ -464,3 +464,55 @@ func (c *Ctx) BlockingOps(fn *ssa.Function, depth int) []string {
 	walk(fn, depth, "")
 	return out
 }
+
+func joinSorted(l []string) string {
+	m := append([]string{}, l...)
+	sort.Strings(m)
+	return strings.Join(m, " && ")
+}
+
+func splitAnd(s string) []string { return strings.Split(s, " && ") }
+
+func fmtKeys(m map[string]bool) string {
+	var ks []string
+	for k := range m {
+		ks = append(ks, "["+k+"]")
+	}
+	sort.Strings(ks)
+	return strings.Join(ks, " ")
+}
+
+func hasPrefixSuffix(s, pre, suf string) bool {
+	return strings.HasPrefix(s, pre) && strings.HasSuffix(s, suf)
+}
+
+func countStr(s, sub string) int { return strings.Count(s, sub) }
+
+// initIs checks that the package-level variable pkg.name is initialised
+// (in the package initialiser) with a value whose canonical term is want
+// and is assigned nowhere else in the module.
+func (c *Ctx) initIs(rule, pkg, name, want string) {
+	n := 0
+	for _, fn := range c.P.Funcs {
+		Instrs(fn, func(in ssa.Instruction) {
+			st, ok := in.(*ssa.Store)
+			if !ok {
+				return
+			}
+			g, ok := st.Addr.(*ssa.Global)
+			if !ok || g.Name() != name || g.Pkg.Pkg.Name() != pkg {
+				return
+			}
+			if FuncName(fn) == pkg+".init" {
+				n++
+				got := NewTermer(fn).T(st.Val)
+				c.Check(got == want, rule, pkg+"."+name+"/value", c.pos(in), "initialised to "+want, pkg+"."+name+" is initialised to "+got+", reviewed value "+want)
+			} else {
+				c.Bad(rule, pkg+"."+name+"/reassigned-in:"+FuncName(fn), c.pos(in), pkg+"."+name+" is reassigned outside the package initialiser")
+			}
+		})
+	}
+	if n != 1 {
+		c.Broken(rule, pkg+"."+name+"/value", fmt.Sprintf("%d initialising stores found", n))
+	}
+}
